@@ -122,7 +122,9 @@ pub fn run(ctx: &Ctx) -> i32 {
         let all_imports: String = pr.files.iter().map(|f| format!("import {}; ", f.doc.key())).collect();
         for (k, f) in pr.files.iter().enumerate() {
             let q = f.doc.key();
-            pairs.push((format!("zz_probe_all{k}"), format!("package zz.probe; {all_imports}parcelable ProbeAll{k} {{ {q} f; }}")));
+            // ... followed by a reference to every other item by its full name (several references in one file)
+            let others: String = pr.files.iter().enumerate().map(|(j, g)| format!("{} o{j}; ", g.doc.key())).collect();
+            pairs.push((format!("zz_probe_all{k}"), format!("package zz.probe; {all_imports}parcelable ProbeAll{k} {{ {q} f; {others}}}")));
         }
         let key = hash_str(&pairs.iter().map(|f| f.1.clone()).collect::<Vec<_>>().join("\u{1}"));
         let res = match libx::parse_project(&pairs) {
@@ -184,13 +186,16 @@ pub fn run(ctx: &Ctx) -> i32 {
             let q = f.doc.key();
             if let Some(a) = res.valid.get(&format!("zz_probe_all{k}")).and_then(|r| r.ast.as_ref()) {
                 if let ast::Item::Parcelable(p) = &a.item {
-                    if let Some(ast::ParcelableElement::Field(fl)) = p.elements.first() {
+                    for el in p.elements.iter() {
+                        let ast::ParcelableElement::Field(fl) = el else { continue };
                         st.inc("registration_probes(all items imported)");
+                        let written = fl.field_type.name.clone();
                         match &fl.field_type.kind {
-                            ast::TypeKind::ResolvedItem(k2, _) if *k2 == q || k2.ends_with(&format!(".{q}")) => {}
-                            other => problems.push(format!("{}: a reference written `{q}` in a file importing every item of the project resolves to {:?}, which does not designate that item", f.id, other)),
+                            ast::TypeKind::ResolvedItem(k2, _) if *k2 == written || k2.ends_with(&format!(".{written}")) => {}
+                            other => problems.push(format!("{}: a reference written `{written}` in a file importing every item of the project resolves to {:?}, which does not designate that item", f.id, other)),
                         }
                     }
+                    let _ = &q;
                 }
             }
         }
